@@ -927,5 +927,703 @@ theorem HashOk.maintain {p : Params} (hq : NoQuirks p) {s : UState} (hi : InvU p
   fun n hn => hh n (maintain_probSub hq hi n hn)
 
 
+@[simp] theorem unlinkWo_prob (s : UState) (e : UEntry) : (unlinkWo s e).prob = s.prob := by
+  unfold unlinkWo; split
+  · rfl
+  · split <;> simp
+
+theorem unlinkAo_probSub (s : UState) (e : UEntry) : ∀ n ∈ (unlinkAo s e).prob, n ∈ s.prob := by
+  unfold unlinkAo
+  split
+  · exact fun n hn => hn
+  · split
+    · exact fun n hn => mem_eraseAo hn
+    · simp
+
+theorem takeOut_probSub (s : UState) (k : Nat) (e : UEntry) :
+    ∀ n ∈ (takeOut s k e).prob, n ∈ s.prob := by
+  intro n hn
+  simp only [takeOut, unlinkWo_prob] at hn
+  exact unlinkAo_probSub { s with map := AL.erase s.map k } e n hn
+
+@[simp] theorem moveToBackWoE_prob (s : UState) (e : UEntry) :
+    (moveToBackWoE s e).prob = s.prob := by
+  unfold moveToBackWoE; split
+  · simp
+  · split <;> simp
+
+theorem probFrom_moveToBackAoE (s : UState) (e : UEntry) :
+    ProbFrom s.prob (moveToBackAoE s e).prob := by
+  unfold moveToBackAoE
+  split
+  · exact ProbFrom.refl _
+  · split
+    · exact ProbFrom.of_sub (fun n hn => mem_moveToBackAo hn)
+    · simp only [fail_prob]; exact ProbFrom.refl _
+
+theorem probFrom_recordHit (s : UState) (e : UEntry) (ts : Option Nat) :
+    ProbFrom s.prob (recordHit s e ts).prob := by
+  unfold recordHit
+  refine ProbFrom.trans ?_ (probFrom_moveToBackAoE _ e)
+  split
+  · exact probFrom_setTsAo _ _ _
+  · exact ProbFrom.refl _
+
+theorem get_probFrom (p : Params) (s : UState) (k : Nat) :
+    ProbFrom (maintain p s).prob (get p s k).1.prob := by
+  unfold get
+  dsimp only
+  have hp2 := sketchIncrement_prob p (maintain p s) (p.hash k)
+  generalize sketchIncrement p (maintain p s) (p.hash k) = s2 at *
+  rw [← hp2]
+  split
+  · exact ProbFrom.refl _
+  · split
+    · exact probFrom_recordHit _ _ _
+    · split
+      · exact ProbFrom.refl _
+      · exact probFrom_recordHit _ _ _
+
+theorem invalidate_probSub (p : Params) (s : UState) (k : Nat) :
+    ∀ n ∈ (invalidate p s k).prob, n ∈ (maintain p s).prob := by
+  unfold invalidate
+  dsimp only
+  split
+  · exact fun n hn => hn
+  · rename_i e _
+    intro n hn
+    have : n ∈ (takeOut (maintain p s) k e).prob := by
+      dsimp only at hn
+      split at hn <;> simpa using hn
+    exact takeOut_probSub _ _ _ n this
+
+theorem invalidateKeys_probSub (p : Params) (keys : List Nat) :
+    ∀ (s : UState) (c w : Nat), ∀ n ∈ (invalidateKeys p keys s c w).1.prob, n ∈ s.prob := by
+  induction keys with
+  | nil => intro s c w n hn; simpa [invalidateKeys] using hn
+  | cons k rest ih =>
+    intro s c w n hn
+    unfold invalidateKeys at hn
+    split at hn
+    · exact ih _ _ _ n hn
+    · exact takeOut_probSub _ _ _ n (ih _ _ _ n hn)
+
+theorem invalidateEntriesIf_probSub (p : Params) (s : UState) (pr : Pred) :
+    ∀ n ∈ (invalidateEntriesIf p s pr).prob, n ∈ s.prob := by
+  unfold invalidateEntriesIf
+  dsimp only
+  have := invalidateKeys_probSub p
+    ((s.map.filter (fun kv => pr.eval kv.1 kv.2.val)).map (·.1)) s 0 0
+  generalize invalidateKeys p _ s 0 0 = r at this ⊢
+  obtain ⟨s1, c, w⟩ := r
+  intro n hn
+  apply this
+  split at hn <;> simpa using hn
+
+theorem probFrom_handleUpdate (p : Params) (s : UState) (k : Nat) (ts : Option Nat) (weight : Nat)
+    (old : UEntry) : ProbFrom s.prob (handleUpdate p s k ts weight old).prob := by
+  unfold handleUpdate
+  split
+  · simp only [fail_prob]; exact ProbFrom.refl _
+  · dsimp only
+    -- the state handed to `moveToBackAoE`
+    have key : ∀ (s' : UState) (e : UEntry), ProbFrom s.prob s'.prob →
+        ProbFrom s.prob
+          ({ (let s2 := moveToBackAoE s' e
+              let s3 := if p.ttl.isSome then moveToBackWoE s2 e else s2
+              { s3 with ws := s3.ws - old.weight }) with
+             ws := (let s2 := moveToBackAoE s' e
+              let s3 := if p.ttl.isSome then moveToBackWoE s2 e else s2
+              { s3 with ws := s3.ws - old.weight }).ws + weight } : UState).prob := by
+      intro s' e h
+      dsimp only
+      have : (if p.ttl.isSome = true then moveToBackWoE (moveToBackAoE s' e) e
+          else moveToBackAoE s' e).prob = (moveToBackAoE s' e).prob := by
+        split <;> simp
+      rw [this]
+      exact h.trans (probFrom_moveToBackAoE s' e)
+    apply key
+    split
+    · exact ProbFrom.refl _
+    · have : ∀ (s' : UState) (e : UEntry) (t : Nat), ProbFrom s.prob s'.prob →
+          ProbFrom s.prob (match e.wo with
+            | some id => { s' with wo := setTsWo s'.wo id t }
+            | none => s').prob := by
+        intro s' e t h
+        split <;> exact h
+      apply this
+      split
+      · exact probFrom_setTsAo _ _ _
+      · exact ProbFrom.refl _
+
+
+theorem removeVictims_probSub (victims : List AoNode) :
+    ∀ (s : UState), ∀ n ∈ (removeVictims victims s).prob, n ∈ s.prob := by
+  induction victims with
+  | nil => intro s n hn; simpa [removeVictims] using hn
+  | cons v rest ih =>
+    intro s n hn
+    unfold removeVictims at hn
+    split at hn
+    · simpa using ih _ n hn
+    · have := ih _ n hn
+      simp only [subEc_prob] at this
+      exact takeOut_probSub _ _ _ n this
+
+theorem pushCandidate_prob_mem (p : Params) (s : UState) (k : Nat) (hash : UInt64) (ts : Option Nat) :
+    ∀ n ∈ (pushCandidate p s k hash ts).prob, n ∈ s.prob ∨ (n.key = k ∧ n.hash = hash) := by
+  intro n hn
+  unfold pushCandidate at hn
+  split at hn
+  · left; simpa using hn
+  · dsimp only at hn
+    split at hn <;>
+    · simp only [List.mem_append, List.mem_singleton] at hn
+      rcases hn with hn | hn
+      · exact Or.inl hn
+      · subst hn; exact Or.inr ⟨rfl, rfl⟩
+
+theorem handleInsert_prob_mem (p : Params) (s : UState) (k : Nat) (hash : UInt64) (w : Nat)
+    (ts : Option Nat) :
+    ∀ n ∈ (handleInsert p s k hash w ts).prob, n ∈ s.prob ∨ (n.key = k ∧ n.hash = hash) := by
+  intro n hn
+  unfold handleInsert at hn
+  split at hn
+  · rw [(maybeEnableSketch_frame p _).2.1] at hn
+    exact pushCandidate_prob_mem p s k hash ts n hn
+  · split at hn
+    · exact Or.inl hn
+    · unfold admitOrReject at hn
+      dsimp only at hn
+      split at hn
+      · left; simpa using hn
+      · split at hn
+        · rw [(maybeEnableSketch_frame p _).2.1] at hn
+          rcases pushCandidate_prob_mem p _ k hash ts n hn with h | h
+          · exact Or.inl (removeVictims_probSub _ _ n h)
+          · exact Or.inr h
+        · exact Or.inl hn
+
+theorem HashOk.insert {p : Params} (hq : NoQuirks p) {s : UState} (hi : InvU p s)
+    (hh : HashOk p s) (k v : Nat) : HashOk p (insert p s k v) := by
+  have h1 := hh.maintain hq hi
+  unfold Unsync.insert
+  dsimp only
+  split
+  · exact h1.of_probFrom (probFrom_handleUpdate p _ k _ _ _)
+  · intro n hn
+    rcases handleInsert_prob_mem p _ k (p.hash k) _ _ n hn with h | ⟨e1, e2⟩
+    · exact h1 n h
+    · rw [e2, e1]
+
+/-- The state after a step from a state satisfying the invariant. -/
+theorem step_state {P : Sketch → Prop} (L : SketchLaws P) {p : Params} (hq : NoQuirks p)
+    (hsm : SmallSketch p) {s : UState} (hi : Inv P p s) (op : Op) :
+    (step p s op).1 = match op with
+      | .ins k v => insert p s k v
+      | .get k => (get p s k).1
+      | .has k => (containsKey p s k).1
+      | .iter => s
+      | .inv k => invalidate p s k
+      | .invAll => invalidateAll p s
+      | .invIf pr => invalidateEntriesIf p s pr
+      | .sync => s
+      | .adv d => { s with now := s.now + d }
+      | .snap => s
+      | .freq _ => s := by
+  have hnf := hi.inv.struct.noFault
+  have hnext := (step_inv L hq hsm hi op).inv.struct.noFault
+  unfold step at hnext ⊢
+  simp only [hnf, Option.isSome_none, Bool.false_eq_true, if_false] at hnext ⊢
+  cases op <;> dsimp only at hnext ⊢ <;> (split at hnext <;> simp_all)
+
+theorem containsKey_state (p : Params) (s : UState) (k : Nat) :
+    (containsKey p s k).1 = maintain p s := by
+  unfold containsKey
+  dsimp only
+  split
+  · rfl
+  · split <;> rfl
+
+theorem step_hashOk {P : Sketch → Prop} (L : SketchLaws P) {p : Params} (hq : NoQuirks p)
+    (hsm : SmallSketch p) {s : UState} (hi : Inv P p s) (hh : HashOk p s) (op : Op) :
+    HashOk p (step p s op).1 := by
+  rw [step_state L hq hsm hi op]
+  have h1 := hh.maintain hq hi.inv
+  cases op with
+  | ins k v => exact hh.insert hq hi.inv k v
+  | get k => exact h1.of_probFrom (get_probFrom p s k)
+  | has k => dsimp only; rw [containsKey_state]; exact h1
+  | iter => exact hh
+  | inv k => exact fun n hn => h1 n (invalidate_probSub p s k n hn)
+  | invAll => intro n hn; simp [invalidateAll] at hn
+  | invIf pr => exact fun n hn => hh n (invalidateEntriesIf_probSub p s pr n hn)
+  | sync => exact hh
+  | adv d => exact hh
+  | snap => exact hh
+  | freq k => exact hh
+
+
+open Spec
+
+/-! ### snapshots versus states -/
+
+theorem snapshot_entries_all {p : Params} {s : UState} (f : EntryView → Bool) :
+    (snapshot p s).entries.all f = true ↔ ∀ k e, (k, e) ∈ s.map → f (entryView s (k, e)) = true := by
+  simp only [snapshot, List.all_eq_true, mem_sortBy, List.mem_map]
+  constructor
+  · intro h k e hm; exact h _ ⟨(k, e), hm, rfl⟩
+  · rintro h x ⟨⟨k, e⟩, hm, rfl⟩; exact h k e hm
+
+/-- A settled state: nothing is expired at the state's clock reading and the weighted size is
+within the capacity. Maintenance does nothing to it. -/
+theorem removeExpiredWo_noop {p : Params} {s : UState} (hs : Struct p s)
+    (hlive : ∀ k e, AL.get? s.map k = some e → expiredAt p.ttl (entryLm s e) s.now = false)
+    (fuel c w : Nat) : removeExpiredWo p fuel s c w = (s, c, w) := by
+  cases fuel with
+  | zero => rfl
+  | succ fuel =>
+    unfold removeExpiredWo
+    cases hp : s.wo with
+    | nil => rfl
+    | cons n rest =>
+      dsimp only
+      have hn : n ∈ s.wo := by rw [hp]; exact List.mem_cons_self
+      obtain ⟨e, he, hwo⟩ := hs.woBack n hn
+      have := hlive n.key e he
+      simp only [entryLm, hwo, findWo_of_mem hs.woIds hn, Option.bind_some] at this
+      rw [this]; rfl
+
+theorem removeExpiredAo_noop {p : Params} {s : UState} (hs : Struct p s)
+    (hlive : ∀ k e, AL.get? s.map k = some e → expiredAt p.tti (entryLa s e) s.now = false)
+    (fuel c w : Nat) : removeExpiredAo p fuel s c w = (s, c, w) := by
+  cases fuel with
+  | zero => rfl
+  | succ fuel =>
+    unfold removeExpiredAo
+    cases hp : s.prob with
+    | nil => rfl
+    | cons n rest =>
+      dsimp only
+      have hn : n ∈ s.prob := by rw [hp]; exact List.mem_cons_self
+      obtain ⟨e, he, hao⟩ := hs.aoBack n hn
+      have := hlive n.key e he
+      simp only [entryLa, hao, findAo_of_mem hs.probIds hn, Option.bind_some] at this
+      rw [this]; rfl
+
+theorem subEc_zero (s : UState) : subEc s 0 = s := by
+  simp [subEc]
+
+theorem evictExpired_noop {p : Params} {s : UState} (hs : Struct p s)
+    (hlive : ∀ k e, AL.get? s.map k = some e → isExpiredEntry p s e s.now = false) :
+    evictExpired p s = s := by
+  have h1 : ∀ k e, AL.get? s.map k = some e → expiredAt p.ttl (entryLm s e) s.now = false :=
+    fun k e h => by have := hlive k e h; simp only [isExpiredEntry, Bool.or_eq_false_iff] at this; exact this.1
+  have h2 : ∀ k e, AL.get? s.map k = some e → expiredAt p.tti (entryLa s e) s.now = false :=
+    fun k e h => by have := hlive k e h; simp only [isExpiredEntry, Bool.or_eq_false_iff] at this; exact this.2
+  unfold evictExpired
+  have e1 : (if p.ttl.isSome = true then
+        (let (s1, c, w) := removeExpiredWo p EVICTION_BATCH_SIZE s 0 0
+         let s2 := subEc s1 c
+         { s2 with ws := s2.ws - w })
+      else s) = s := by
+    split
+    · rw [removeExpiredWo_noop hs h1]; simp [subEc_zero]
+    · rfl
+  simp only at e1
+  rw [e1]
+  dsimp only
+  split
+  · rw [removeExpiredAo_noop hs h2]; simp [subEc_zero]
+  · rfl
+
+theorem evictLru_noop {p : Params} {s : UState} (h : weightsToEvict p s = 0) :
+    evictLru p s = s := by
+  unfold evictLru
+  have : evictLruLoop EVICTION_BATCH_SIZE s 0 0 0 = (s, 0, 0) := by
+    unfold EVICTION_BATCH_SIZE
+    cases hb : Gen.UNSYNC_EVICTION_BATCH_SIZE with
+    | zero => rfl
+    | succ n => simp [evictLruLoop]
+  rw [h, this]
+  simp [subEc_zero]
+
+theorem maintain_noop {p : Params} {s : UState} (hs : Struct p s)
+    (hlive : ∀ k e, AL.get? s.map k = some e → isExpiredEntry p s e s.now = false)
+    (hfit : weightsToEvict p s = 0) : maintain p s = s := by
+  unfold maintain evictExpiredIfNeeded
+  split
+  · rw [evictExpired_noop hs hlive, evictLru_noop hfit]
+  · exact evictLru_noop hfit
+
+/-- `calm` on the snapshot of a state means maintenance leaves the state alone. -/
+theorem maintain_of_calm {p : Params} {s : UState} (hs : Struct p s) {cap : Nat}
+    (hcap : p.cap = some cap) (hcalm : calm cap p.ttl p.tti (snapshot p s) = true) :
+    maintain p s = s := by
+  simp only [calm, Bool.and_eq_true, decide_eq_true_eq] at hcalm
+  obtain ⟨⟨⟨hws, hlive⟩, _⟩, _⟩ := hcalm
+  rw [snapshot_entries_all] at hlive
+  apply maintain_noop hs
+  · intro k e he
+    have := hlive k e (AL.mem_of_get? he)
+    simp only [entryLiveAt, entryView, snapshot, Bool.and_eq_true, Bool.not_eq_true'] at this
+    simp only [isExpiredEntry, Bool.or_eq_false_iff]
+    exact ⟨this.1.1, this.1.2⟩
+  · have : (snapshot p s).ws = s.ws := rfl
+    rw [this] at hws
+    simp [weightsToEvict, hcap]; omega
+
+
+open Spec
+
+theorem find?_key_of_nodup {α : Type} (key : α → Nat) :
+    ∀ (l : List α), (l.map key).Nodup → ∀ {a : α}, a ∈ l →
+      l.find? (fun x => key x == key a) = some a := by
+  intro l
+  induction l with
+  | nil => intro _ a ha; simp at ha
+  | cons b l ih =>
+    intro hn a ha
+    simp only [List.map_cons, List.nodup_cons] at hn
+    rcases List.mem_cons.mp ha with h | h
+    · subst h; simp
+    · have hne : key b ≠ key a := fun e => hn.1 (e ▸ List.mem_map.mpr ⟨a, h, rfl⟩)
+      rw [List.find?_cons_of_neg (by simpa using hne)]
+      exact ih hn.2 h
+
+/-- Looking a key up in a sorted list of per-entry records. -/
+theorem find?_sortBy_map {α : Type} (key : α → Nat) (g : Nat × UEntry → α)
+    (hg : ∀ kv, key (g kv) = kv.1) (m : List (Nat × UEntry)) (hn : (AL.keys m).Nodup) (k : Nat) :
+    (sortBy key (m.map g)).find? (fun x => key x == k) =
+      (AL.get? m k).map (fun e => g (k, e)) := by
+  have hperm := sortBy_perm key (m.map g)
+  have hkeys : ((sortBy key (m.map g)).map key).Nodup := by
+    refine ((hperm.map key).nodup_iff).mpr ?_
+    have : (m.map g).map key = AL.keys m := by
+      rw [AL.keys_eq_map, List.map_map]
+      exact List.map_congr_left (fun kv _ => hg kv)
+    rw [this]; exact hn
+  cases hget : AL.get? m k with
+  | none =>
+    simp only [Option.map_none]
+    rw [List.find?_eq_none]
+    intro x hx
+    rw [mem_sortBy, List.mem_map] at hx
+    obtain ⟨kv, hkv, rfl⟩ := hx
+    rw [hg]
+    intro hk
+    have hk' : kv.1 = k := by simpa using hk
+    have : k ∈ AL.keys m := by
+      rw [AL.keys_eq_map]; exact List.mem_map.mpr ⟨kv, hkv, hk'⟩
+    rw [← AL.get?_isSome_iff, hget] at this
+    cases this
+  | some e =>
+    simp only [Option.map_some]
+    have hmem : g (k, e) ∈ sortBy key (m.map g) := by
+      rw [mem_sortBy]; exact List.mem_map.mpr ⟨(k, e), AL.mem_of_get? hget, rfl⟩
+    have := find?_key_of_nodup key _ hkeys hmem
+    rw [hg] at this
+    exact this
+
+theorem weightOfKey_snapshot {p : Params} {s : UState} (hs : Struct p s) (k : Nat) :
+    weightOfKey (snapshot p s) k = wOf s k := by
+  unfold weightOfKey wOf
+  have := find?_sortBy_map (·.key) (entryView s) (fun _ => rfl) s.map hs.keysNodup k
+  simp only [snapshot]
+  rw [this]
+  cases AL.get? s.map k <;> simp [entryView]
+
+theorem freqOfKey_snapshot {p : Params} {s : UState} (hs : Struct p s) (k : Nat) :
+    freqOfKey (snapshot p s) k =
+      match AL.get? s.map k with
+      | some _ => s.sk.frequency (p.hash k)
+      | none => 0 := by
+  unfold freqOfKey
+  have := find?_sortBy_map (α := Nat × Nat) (·.1)
+    (fun kv => (kv.1, s.sk.frequency (p.hash kv.1))) (fun _ => rfl) s.map hs.keysNodup k
+  simp only [snapshot]
+  rw [this]
+  cases AL.get? s.map k <;> simp
+
+theorem lruOrder_snapshot (p : Params) (s : UState) :
+    lruOrder (snapshot p s) = s.prob.map (·.key) := by
+  simp [lruOrder, snapshot, List.map_map, Function.comp_def]
+
+theorem mem_keysOf_snapshot (p : Params) (s : UState) (k : Nat) :
+    k ∈ keysOf (snapshot p s) ↔ ∃ e, AL.get? s.map k = some e := by
+  simp only [keysOf, snapshot, List.mem_map, mem_sortBy]
+  constructor
+  · rintro ⟨ev, ⟨kv, hkv, rfl⟩, rfl⟩
+    have : kv.1 ∈ AL.keys s.map := by
+      rw [AL.keys_eq_map]; exact List.mem_map.mpr ⟨kv, hkv, rfl⟩
+    rw [← AL.get?_isSome_iff] at this
+    cases h : AL.get? s.map kv.1 with
+    | none => rw [h] at this; cases this
+    | some e => exact ⟨e, by simpa [entryView] using h⟩
+  · rintro ⟨e, he⟩
+    exact ⟨entryView s (k, e), ⟨(k, e), AL.mem_of_get? he, rfl⟩, rfl⟩
+
+/-- The oracle's prefix search is `shortestPre` on the weights of the listed keys. -/
+theorem shortestPrefix_eq (sn : Snap) (need : Nat) :
+    ∀ (rest : List Nat) (got : Nat) (acc : List Nat),
+      shortestPrefix sn need rest got acc =
+        (shortestPre (need - got) (rest.map (weightOfKey sn))).map (fun n => acc ++ rest.take n) := by
+  intro rest
+  induction rest with
+  | nil =>
+    intro got acc
+    unfold shortestPrefix
+    by_cases h : got ≥ need
+    · have h0 : need - got = 0 := by omega
+      simp [h, h0]
+    · have h0 : need - got ≠ 0 := by omega
+      simp [h, shortestPre_nil_pos h0]
+  | cons k rest ih =>
+    intro got acc
+    unfold shortestPrefix
+    by_cases h : got ≥ need
+    · have h0 : need - got = 0 := by omega
+      simp [h, h0]
+    · have h0 : need - got ≠ 0 := by omega
+      simp only [h, if_false, List.map_cons]
+      rw [ih, shortestPre_cons_pos h0]
+      have : need - got - weightOfKey sn k = need - (got + weightOfKey sn k) := by omega
+      rw [this, Option.map_map]
+      congr 1
+      funext n
+      simp
+
+/-- The oracle's prediction, read off the state. -/
+theorem predictAdmission_snapshot {p : Params} {s : UState} (hs : Struct p s) (hh : HashOk p s)
+    (w f : Nat) :
+    predictAdmission (snapshot p s) w f =
+      match shortestPre w (probWeights s) with
+      | none => none
+      | some n =>
+        if f > ((probFreqs s).take n).sum then some ((s.prob.take n).map (·.key)) else none := by
+  unfold predictAdmission
+  rw [shortestPrefix_eq, lruOrder_snapshot]
+  have hW : (s.prob.map (·.key)).map (weightOfKey (snapshot p s)) = probWeights s := by
+    rw [List.map_map]
+    exact List.map_congr_left (fun n _ => weightOfKey_snapshot hs n.key)
+  have hF : (s.prob.map (·.key)).map (freqOfKey (snapshot p s)) = probFreqs s := by
+    rw [List.map_map]
+    apply List.map_congr_left
+    intro n hn
+    obtain ⟨e, he, _⟩ := hs.aoBack n hn
+    simp only [Function.comp, freqOfKey_snapshot hs, he, fOf, hh n hn]
+  rw [hW, Nat.sub_zero]
+  cases shortestPre w (probWeights s) with
+  | none => rfl
+  | some n =>
+    simp only [Option.map_some, List.nil_append]
+    rw [← hF, List.map_take, List.map_take]
+
+
+open Spec
+
+theorem sameKeys_iff (a b : List Nat) : sameKeys a b = true ↔ ∀ x, x ∈ a ↔ x ∈ b := by
+  simp only [sameKeys, Bool.and_eq_true, List.all_eq_true, List.contains_iff_mem]
+  constructor
+  · rintro ⟨h1, h2⟩ x; exact ⟨h1 x, h2 x⟩
+  · intro h; exact ⟨fun x hx => (h x).mp hx, fun x hx => (h x).mpr hx⟩
+
+/-- The check the C13 oracle performs around an insert holds for the model: the snapshot
+after `insert p s k v` is what the closed formula predicts from the snapshot of `s` and the
+estimate of `k` read in `s`. -/
+theorem admissionOk_model {p : Params} (hq : NoQuirks p) {s : UState} (hi : InvU p s)
+    (hh : HashOk p s) {cap : Nat} (hcap : p.cap = some cap) (k v : Nat) :
+    admissionOk cap p.ttl p.tti p.weigh (snapshot p s) k v (s.sk.frequency (p.hash k))
+      (snapshot p (insert p s k v)) = true := by
+  unfold admissionOk
+  dsimp only
+  cases happ : (!(keysOf (snapshot p s)).contains k && calm cap p.ttl p.tti (snapshot p s) &&
+      decide (p.weigh k v ≤ cap) && decide ((snapshot p s).ws + p.weigh k v > cap)) with
+  | false => rfl
+  | true =>
+  simp only [Bool.not_true, Bool.false_or]
+  simp only [Bool.and_eq_true, Bool.not_eq_true', decide_eq_true_eq] at happ
+  obtain ⟨⟨⟨hfresh, hcalm⟩, hle⟩, hgt⟩ := happ
+  have hnew : AL.get? s.map k = none := by
+    cases hg : AL.get? s.map k with
+    | none => rfl
+    | some e =>
+      have : k ∈ keysOf (snapshot p s) := (mem_keysOf_snapshot p s k).mpr ⟨e, hg⟩
+      rw [← List.contains_iff_mem, hfresh] at this; cases this
+  have hm : maintain p s = s := maintain_of_calm hi.struct hcap hcalm
+  have hroom : hasEnoughCapacity p (p.weigh k v) s.ws = false := by
+    have : (snapshot p s).ws = s.ws := rfl
+    rw [this] at hgt
+    simp [hasEnoughCapacity, hcap]; omega
+  have hbig : tooBig p (p.weigh k v) = false := by
+    simp [tooBig, hcap]; omega
+  have hins := insert_noroom hq hi k v (by rw [hm]; exact hnew) (by rw [hm]; exact hroom) hbig
+  rw [hm] at hins
+  obtain ⟨hadm, hrej⟩ := hins
+  rw [predictAdmission_snapshot hi.struct hh]
+  have hrejected : (¬ ∃ n, shortestPre (p.weigh k v) (probWeights s) = some n ∧
+      s.sk.frequency (p.hash k) > ((probFreqs s).take n).sum) →
+      sameKeys (keysOf (snapshot p (insert p s k v))) (keysOf (snapshot p s)) = true := by
+    intro hno
+    rw [hrej hno, sameKeys_iff]
+    exact fun _ => Iff.rfl
+  cases hsp : shortestPre (p.weigh k v) (probWeights s) with
+  | none =>
+    dsimp only
+    apply hrejected
+    rintro ⟨n, h1, _⟩
+    rw [hsp] at h1; cases h1
+  | some n =>
+    dsimp only
+    by_cases hf : s.sk.frequency (p.hash k) > ((probFreqs s).take n).sum
+    · rw [if_pos hf]
+      dsimp only
+      obtain ⟨⟨e, he, _⟩, hmap, _⟩ := hadm n hsp hf
+      rw [sameKeys_iff]
+      intro x
+      rw [mem_keysOf_snapshot]
+      simp only [List.mem_cons, List.mem_filter, Bool.not_eq_true', mem_keysOf_snapshot]
+      by_cases hx : x = k
+      · subst hx
+        exact ⟨fun _ => Or.inl rfl, fun _ => ⟨e, he⟩⟩
+      · rw [hmap x hx]
+        by_cases hin : x ∈ (s.prob.take n).map (·.key)
+        · rw [if_pos hin]
+          constructor
+          · rintro ⟨e', he'⟩; cases he'
+          · rintro (h | ⟨_, h⟩)
+            · exact absurd h hx
+            · rw [← List.contains_iff_mem] at hin
+              rw [hin] at h; cases h
+        · rw [if_neg hin]
+          constructor
+          · intro h
+            refine Or.inr ⟨h, ?_⟩
+            cases hc : ((s.prob.take n).map (·.key)).contains x with
+            | false => rfl
+            | true => exact absurd (List.contains_iff_mem.mp hc) hin
+          · rintro (h | ⟨h, _⟩)
+            · exact absurd h hx
+            · exact h
+    · rw [if_neg hf]
+      dsimp only
+      apply hrejected
+      rintro ⟨n', h1, h2⟩
+      rw [hsp] at h1; cases h1
+      exact hf h2
+
+
+open Spec
+
+theorem run_cons (p : Params) (s : UState) (op : Op) (rest : List Op) :
+    run p s (op :: rest) = (op, (step p s op).2) :: run p (step p s op).1 rest := by
+  simp [run]
+
+theorem run_eq_cons {p : Params} {s : UState} {h : List Op} {x : Op × Obs} {t : List (Op × Obs)}
+    (e : run p s h = x :: t) :
+    ∃ op rest, h = op :: rest ∧ x = (op, (step p s op).2) ∧ t = run p (step p s op).1 rest := by
+  cases h with
+  | nil => simp [run] at e
+  | cons op rest =>
+    rw [run_cons] at e
+    obtain ⟨e1, e2⟩ := List.cons.inj e
+    exact ⟨op, rest, rfl, e1.symm, e2.symm⟩
+
+theorem step_snap {P : Sketch → Prop} (L : SketchLaws P) {p : Params} (hq : NoQuirks p)
+    (hsm : SmallSketch p) {s : UState} (hi : Inv P p s) :
+    step p s .snap = (s, .snap (snapshot p s)) :=
+  Prod.ext (step_state L hq hsm hi .snap) (step_obs L hq hsm hi .snap)
+
+theorem step_freq {P : Sketch → Prop} (L : SketchLaws P) {p : Params} (hq : NoQuirks p)
+    (hsm : SmallSketch p) {s : UState} (hi : Inv P p s) (k : Nat) :
+    step p s (.freq k) = (s, .freq (s.sk.frequency (p.hash k))) :=
+  Prod.ext (step_state L hq hsm hi (.freq k)) (step_obs L hq hsm hi (.freq k))
+
+theorem step_ins {P : Sketch → Prop} (L : SketchLaws P) {p : Params} (hq : NoQuirks p)
+    (hsm : SmallSketch p) {s : UState} (hi : Inv P p s) (k v : Nat) :
+    step p s (.ins k v) = (insert p s k v, .ok) :=
+  Prod.ext (step_state L hq hsm hi (.ins k v)) (step_obs L hq hsm hi (.ins k v))
+
+/-- The C13 walk over a model trace: every `snap, freq k, ins k v, snap` window passes. -/
+theorem admitC13_run {P : Sketch → Prop} (L : SketchLaws P) {p : Params} (hq : NoQuirks p)
+    (hsm : SmallSketch p) {cap : Nat} (hcap : p.cap = some cap) :
+    ∀ (n : Nat) (h : List Op), h.length ≤ n → ∀ (s : UState), Inv P p s → HashOk p s →
+      admitC13 cap p.ttl p.tti p.weigh (run p s h) = true := by
+  intro n
+  induction n with
+  | zero =>
+    intro h hl s _ _
+    have : h = [] := List.length_eq_zero_iff.mp (Nat.le_zero.mp hl)
+    subst this
+    simp [run, admitC13]
+  | succ n ih =>
+    intro h hl s hi hh
+    cases h with
+    | nil => simp [run, admitC13]
+    | cons op rest =>
+      have hlr : rest.length ≤ n := by simpa using hl
+      rw [run_cons]
+      unfold admitC13
+      split
+      · rename_i before k f k' v after rest' heq
+        obtain ⟨e1, e2⟩ := List.cons.inj heq
+        have hop : op = .snap := (Prod.mk.inj e1).1
+        subst hop
+        rw [step_snap L hq hsm hi] at e1 e2
+        have hbefore : before = snapshot p s := by
+          have := (Prod.mk.inj e1).2; exact (Obs.snap.inj this).symm
+        obtain ⟨op2, r2, hr2, hx2, ht2⟩ := run_eq_cons e2
+        have hop2 : op2 = .freq k := (Prod.mk.inj hx2).1.symm
+        subst hop2
+        rw [step_freq L hq hsm hi] at hx2 ht2
+        have hf : f = s.sk.frequency (p.hash k) := by
+          have := (Prod.mk.inj hx2).2; exact Obs.freq.inj this
+        obtain ⟨op3, r3, hr3, hx3, ht3⟩ := run_eq_cons ht2.symm
+        have hop3 : op3 = .ins k' v := (Prod.mk.inj hx3).1.symm
+        subst hop3
+        rw [step_ins L hq hsm hi] at hx3 ht3
+        have hi3 : Inv P p (insert p s k' v) := by
+          have := step_inv L hq hsm hi (.ins k' v)
+          rwa [step_ins L hq hsm hi] at this
+        have hh3 : HashOk p (insert p s k' v) := hh.insert hq hi.inv k' v
+        obtain ⟨op4, r4, hr4, hx4, ht4⟩ := run_eq_cons ht3.symm
+        have hop4 : op4 = .snap := (Prod.mk.inj hx4).1.symm
+        subst hop4
+        rw [step_snap L hq hsm hi3] at hx4 ht4
+        have hafter : after = snapshot p (insert p s k' v) := by
+          have := (Prod.mk.inj hx4).2; exact Obs.snap.inj this
+        subst hr2 hr3 hr4
+        rw [Bool.and_eq_true]
+        refine ⟨?_, ?_⟩
+        · by_cases hk : k = k'
+          · subst hk
+            rw [hbefore, hf, hafter, admissionOk_model hq hi.inv hh hcap]
+            simp
+          · simp [hk]
+        · have : (Op.snap, Obs.snap after) :: rest' = run p (insert p s k' v) (.snap :: r4) := by
+            rw [run_cons, step_snap L hq hsm hi3, hafter, ht4]
+          rw [this]
+          refine ih _ ?_ _ hi3 hh3
+          simp only [List.length_cons] at hlr ⊢
+          omega
+      · rename_i x t heq
+        obtain ⟨_, e2⟩ := List.cons.inj heq
+        rw [← e2]
+        exact ih rest hlr _ (step_inv L hq hsm hi op) (step_hashOk L hq hsm hi hh op)
+      · rfl
+
+/-- **C13 on traces** (single-threaded cache): the oracle accepts every trace of the model. -/
+theorem oracleC13_trace {P : Sketch → Prop} (L : SketchLaws P) {p : Params} (hq : NoQuirks p)
+    (hsm : SmallSketch p) (h : List Op) :
+    oracleC13 .unsync p.cap p.ttl p.tti p.weigh (trace p h) = true := by
+  unfold oracleC13 trace
+  cases hcap : p.cap with
+  | none => rfl
+  | some cap =>
+    dsimp only
+    exact admitC13_run L hq hsm hcap h.length h (Nat.le_refl _) {} (init_inv L p)
+      (fun n hn => by simp at hn)
+
+
 end Unsync
 end MiniMoka
